@@ -33,6 +33,13 @@ ALLOCATIONS = [
      'memory': '2M', 'cpu': '2%', 'disk': '2M',
      'rank': 0, 'rank_adjustment': 0, 'max_utilization': 2,
      'assignments': [{'pattern': 'p3.*', 'priority': 20}]},
+    # rank adjustment larger than the rank (both 0..100 in the schema): the
+    # instance within this reservation has rank 5 - 10 = -5 and comes before
+    # the rank-0 tenant t2 of the same partition
+    {'name': 't3', 'partition': 'part2',
+     'memory': '2M', 'cpu': '2%', 'disk': '2M',
+     'rank': 5, 'rank_adjustment': 10,
+     'assignments': [{'pattern': 'p4.*', 'priority': 30}]},
 ]
 
 # per partition: the tree the reference expects (parents, node parameters)
@@ -43,8 +50,8 @@ TREES = {
                   [[0, 0, 0], 100, 0, None], [[0, 0, 0], 100, 0, None],
                   [[0, 0, 0], 100, 0, None]]},
     'part2': {
-        'paths': ['t2'],
-        'nodes': [[[2, 2, 2], 0, 0, 2]]},
+        'paths': ['t2', 't3'],
+        'nodes': [[[2, 2, 2], 0, 0, 2], [[2, 2, 2], 5, 10, None]]},
 }
 
 # base name -> (partition, allocation path, assignment priority)
@@ -55,6 +62,7 @@ EXPECT = {
     'p1.other': ('_default', '_default/p1', 1),   # proid known, no pattern
     'p2.x': ('_default', '_default/p2', 1),       # proid unknown
     'p3.y': ('part2', 't2', 20),
+    'p4.z': ('part2', 't3', 30),
 }
 BASES = sorted(EXPECT)
 PRIOS = [None, -1, 0, 7, 100]       # manifest priority (None = key absent)
@@ -63,7 +71,8 @@ OPTIONS = [(b, p, r) for b in BASES for p in PRIOS for r in (0, 1)]
 KMAX = {'quick': 2, 'thorough': 3}
 SITE = 'Loader.load_app/find_assignment'
 MUST_FIRE = ('manifest_priority_used', 'assignment_priority_used',
-             'default_tenant_used', 'second_partition_used')
+             'default_tenant_used', 'second_partition_used',
+             'negative_boosted_rank_next_to_rank_0')
 
 
 class MemBackend:
@@ -223,6 +232,9 @@ def worker(chunk):
                     cnt['default_tenant_used'] += 1
                 if EXPECT[base][0] != '_default':
                     cnt['second_partition_used'] += 1
+            if (any(a[0] == 'p4.z' for a in apps) and
+                    any(a[0] == 'p3.y' for a in apps)):
+                cnt['negative_boosted_rank_next_to_rank_0'] += 1
             if bad:
                 case = {'apps': [list(a) for a in apps]}
                 for clause, site, detail in bad:
